@@ -258,7 +258,7 @@ Proof.
     try (apply marked_cons;
          [apply (pi_marked _ _ HP); unfold tstate_of in *;
           rewrite <- (pstep_ts_other _ _ _ Hstep) by (intros; rewrite Hk; discriminate); exact Ht
-         |intros [(o & n & Hk' & _)|(ok & p & n & Hk' & _)]; rewrite Hk in Hk'; discriminate]).
+         |intros [(o1 & n1 & Hk' & _)|(ok1 & p1 & n1 & Hk' & _)]; rewrite Hk in Hk'; discriminate]).
   - (* probe apply *)
     unfold pstep in Hstep. rewrite Hk in Hstep.
     destruct (tstate_eqb new _) eqn:Enew; [|discriminate]. injection Hstep as <-.
@@ -267,11 +267,11 @@ Proof.
       assert (Hcur : tstate_of s t = TDraining).
       { destruct ok; [discriminate|]. destruct (tstate_of s t); try discriminate. reflexivity. }
       apply marked_cons; [now apply (pi_marked _ _ HP)|].
-      intros [(o & n & Hk' & _)|(ok' & p & n & Hk' & Hn)]; rewrite Hk in Hk'; [discriminate|].
-      injection Hk' as _ _ _ <-. contradiction.
+      intros [(o1 & n1 & Hk' & _)|(ok1 & p1 & n1 & Hk' & Hn)]; rewrite Hk in Hk'; [discriminate|].
+      inversion Hk'; subst. contradiction.
     + apply marked_cons; [now apply (pi_marked _ _ HP)|].
-      intros [(o & n & Hk' & _)|(ok' & p & n & Hk' & Hn)]; rewrite Hk in Hk'; [discriminate|].
-      injection Hk' as -> _ _ _. now rewrite Nat.eqb_refl in E.
+      intros [(o1 & n1 & Hk' & _)|(ok1 & p1 & n1 & Hk' & Hn)]; rewrite Hk in Hk'; [discriminate|].
+      inversion Hk'; subst. now rewrite Nat.eqb_refl in E.
   - (* state set *)
     unfold pstep in Hstep. rewrite Hk in Hstep.
     destruct (tstate_eqb orig (tstate_of s t0)); [|discriminate].
@@ -281,8 +281,8 @@ Proof.
     subst s'. rewrite tstate_of_upd in Ht. destruct (Nat.eqb t t0) eqn:E.
     + apply Nat.eqb_eq in E. subst t0 new. exists [], e, h, orig. split; [reflexivity|]. split; [exact Hk|constructor].
     + apply marked_cons; [now apply (pi_marked _ _ HP)|].
-      intros [(o & n & Hk' & _)|(ok' & p & n & Hk' & Hn)]; rewrite Hk in Hk'; [|discriminate].
-      injection Hk' as -> _ _. now rewrite Nat.eqb_refl in E.
+      intros [(o1 & n1 & Hk' & _)|(ok1 & p1 & n1 & Hk' & Hn)]; rewrite Hk in Hk'; [|discriminate].
+      inversion Hk'; subst. now rewrite Nat.eqb_refl in E.
 Qed.
 
 Lemma run_snoc {St} (step : St -> event -> option St) s0 l e s s' :
@@ -346,4 +346,145 @@ Qed.
 Lemma PInv_run tr s : run pstep pinit tr = Some s -> PInv (rev tr) s.
 Proof.
   apply (run_inv pstep pinit PInv); [apply PInv_init|]. intros h s0 e s' HP Hs. eapply PInv_step; eassumption.
+Qed.
+
+(** * Trace-order statements *)
+
+Lemma rev_eq_split {A} (l : list A) b x a : rev l = b ++ x :: a -> l = rev a ++ x :: rev b.
+Proof. intros H. rewrite <- (rev_involutive l), H. apply rev_split2. Qed.
+
+(** A claim is refused only by a target that was marked draining earlier and
+    has not been taken out of that state since. *)
+Theorem refusal_needs_mark pre e post s t r :
+  run pstep pinit (pre ++ e :: post) = Some s -> e_k e = KClaimRefused t r ->
+  exists a ev b o, pre = a ++ ev :: b /\ e_k ev = KStateSet t o TDraining /\ Forall (fun x => ~ undrains t x) b.
+Proof.
+  intros Hrun Hk. apply run_split in Hrun as (s1 & s2 & R1 & S & _).
+  assert (Ht : tstate_of s1 t = TDraining).
+  { unfold pstep in S. rewrite Hk in S. destruct (nget (p_req s1) r); [|discriminate].
+    destruct (onat_eq _ _ && tstate_eqb (tstate_of s1 t) TDraining) eqn:E; [|discriminate].
+    apply andb_true_iff in E as [_ E]. destruct (tstate_of s1 t); try discriminate. reflexivity. }
+  destruct (pi_marked _ _ (PInv_run _ _ R1) t Ht) as (b & ev & a & o & Hh & Hev & Hb).
+  exists (rev a), ev, (rev b), o. split; [now apply rev_eq_split|]. split; [exact Hev|now apply Forall_rev].
+Qed.
+
+(** the drain phase of a command, in trace order: [pre] is the trace so far *)
+Definition in_drain_phase (pre : trace) (c : nat) (cause : dcause) : Prop :=
+  match cause with
+  | DPause svc =>
+    exists a ev b sa n pc st ch,
+      pre = a ++ ev :: b /\ e_k ev = KGateSet pc st ch /\ st <> GRunning /\ e_by ev = ACmd c /\ no_return c b /\
+      run pstep pinit a = Some sa /\ nget (p_cmd sa) c = Some n /\ installed sa n = Some svc
+  | DDeploy lb =>
+    exists a ev b sa svc,
+      pre = a ++ ev :: b /\ e_k ev = KInstall svc true /\ e_by ev = ACmd c /\ no_return c b /\
+      run pstep pinit a = Some sa /\ nget (p_repl sa) c = Some lb
+  end.
+
+Lemma drain_phase_fwd pre c cause : drain_phase (rev pre) c cause -> in_drain_phase pre c cause.
+Proof.
+  destruct cause as [svc|lb]; cbn [drain_phase in_drain_phase].
+  - intros (b & ev & a & sa & n & pc & st & ch & Hh & H1 & H2 & H3 & H4 & H5 & H6).
+    exists (rev a), ev, (rev b), sa, n, pc, st, ch. split; [now apply rev_eq_split|].
+    repeat (split; [assumption|]). split; [now apply Forall_rev|]. split; assumption.
+  - intros (b & ev & a & sa & svc & Hh & H1 & H2 & H3 & H4 & H5).
+    exists (rev a), ev, (rev b), sa, svc. split; [now apply rev_eq_split|].
+    repeat (split; [assumption|]). split; [now apply Forall_rev|]. split; assumption.
+Qed.
+
+(** A target is marked draining only in the drain phase of a command: after a
+    pause / stop has set the gate (and before it returns), the target being in a
+    balancer of the object that was installed under the command's name; or
+    after a deploy has installed its object (and before it returns), the
+    target being in the balancer that deploy replaced. *)
+Theorem mark_in_drain_phase pre e post s t o :
+  run pstep pinit (pre ++ e :: post) = Some s -> e_k e = KStateSet t o TDraining ->
+  exists s1 c cause, run pstep pinit pre = Some s1 /\ covers s1 cause t = true /\ in_drain_phase pre c cause.
+Proof.
+  intros Hrun Hk. apply run_split in Hrun as (s1 & s2 & R1 & S & _).
+  unfold pstep in S. rewrite Hk in S. destruct (tstate_eqb o (tstate_of s1 t)); [|discriminate].
+  destruct (existsb (fun cc => covers s1 (snd cc) t) (p_drain s1)) eqn:E; [|discriminate].
+  apply existsb_exists in E as ([c cause] & Hin & Hc). cbn [snd] in Hc.
+  exists s1, c, cause. split; [exact R1|]. split; [exact Hc|].
+  apply drain_phase_fwd. apply (pi_drain _ _ (PInv_run _ _ R1)). exact Hin.
+Qed.
+
+(** * Both views *)
+
+From KP Require Import model.M5gate.
+
+Definition accepted (tr : trace) : Prop := gate_accepts tr = true /\ path_accepts tr = true.
+
+(** Events of the kinds the driver drops are ignored by both acceptors. *)
+Lemma unkept_ignored e : kept e = false -> (forall s, gstep s e = Some s) /\ (forall s, pstep s e = Some s).
+Proof.
+  unfold kept, gstep, pstep. destruct (e_k e); try discriminate; intros _; split; reflexivity.
+Qed.
+
+Lemma run_filter_kept {St} (step : St -> event -> option St) :
+  (forall e, kept e = false -> forall s, step s e = Some s) ->
+  forall tr s, run step s (filter kept tr) = run step s tr.
+Proof.
+  intros Hig tr. induction tr as [|e tr IH]; intros s; cbn [filter run]; [reflexivity|].
+  destruct (kept e) eqn:E; cbn [run].
+  - destruct (step s e); [apply IH|reflexivity].
+  - rewrite (Hig e E s). apply IH.
+Qed.
+
+Theorem accepted_filter_kept tr :
+  gate_accepts (filter kept tr) = gate_accepts tr /\ path_accepts (filter kept tr) = path_accepts tr.
+Proof.
+  unfold gate_accepts, path_accepts. split.
+  - rewrite (run_filter_kept gstep); [reflexivity|]. intros e E. apply (unkept_ignored e E).
+  - rewrite (run_filter_kept pstep); [reflexivity|]. intros e E. apply (unkept_ignored e E).
+Qed.
+
+Lemma path_accepts_run tr : path_accepts tr = true -> exists s, run pstep pinit tr = Some s.
+Proof. unfold path_accepts. destruct (run pstep pinit tr) as [s|]; [eauto|discriminate]. Qed.
+
+Lemma gate_accepts_run tr : gate_accepts tr = true -> exists s, run gstep ginit tr = Some s.
+Proof. unfold gate_accepts. destruct (run gstep ginit tr) as [s|]; [eauto|discriminate]. Qed.
+
+(** The anatomy of a refusal: the target was marked draining earlier (and has
+    stayed so), in the drain phase of a pause / stop / deploy command; and the
+    gate had let the request pass before. *)
+Theorem refusal_anatomy tr pre e post t r :
+  accepted tr -> tr = pre ++ e :: post -> e_k e = KClaimRefused t r ->
+  (exists a ev b o, pre = a ++ ev :: b /\ e_k ev = KStateSet t o TDraining /\ Forall (fun x => ~ undrains t x) b /\
+                    exists s1 c cause, run pstep pinit a = Some s1 /\ covers s1 cause t = true /\ in_drain_phase a c cause) /\
+  (exists ev svc, In ev pre /\ e_k ev = KGateResult r svc AProceed).
+Proof.
+  intros [Hg Hp] -> Hk. apply path_accepts_run in Hp as (sp & Hp). apply gate_accepts_run in Hg as (sg & Hg). split.
+  - destruct (refusal_needs_mark _ _ _ _ _ _ Hp Hk) as (a & ev & b & o & -> & Hev & Hb).
+    exists a, ev, b, o. split; [reflexivity|]. split; [exact Hev|]. split; [exact Hb|].
+    rewrite <- app_assoc in Hp. cbn [app] in Hp. eapply mark_in_drain_phase; eassumption.
+  - eapply path_after_proceed; [exact Hg| |]; unfold is_path, req_of; now rewrite Hk.
+Qed.
+
+(** Outside the two windows there is no refusal: if (D3 / D2 window) no request
+    gets "proceed" from the gate, then has the target it is going to claim marked
+    draining, then claims it; and (overlap) no request gets "proceed" from the
+    gate while the target it then claims is marked draining - then no claim is
+    refused at all. *)
+Theorem no_refusal_outside tr :
+  accepted tr ->
+  (forall p1 ev1 p2 ev2 p3 ev3 p4 r svc t o,
+      tr = p1 ++ ev1 :: p2 ++ ev2 :: p3 ++ ev3 :: p4 ->
+      e_k ev1 = KGateResult r svc AProceed -> e_k ev2 = KStateSet t o TDraining -> e_k ev3 = KClaimRefused t r -> False) ->
+  (forall p1 ev2 p2 ev1 p3 ev3 p4 r svc t o,
+      tr = p1 ++ ev2 :: p2 ++ ev1 :: p3 ++ ev3 :: p4 ->
+      e_k ev2 = KStateSet t o TDraining -> Forall (fun x => ~ undrains t x) (p2 ++ ev1 :: p3) ->
+      e_k ev1 = KGateResult r svc AProceed -> e_k ev3 = KClaimRefused t r -> False) ->
+  forall e t r, In e tr -> e_k e <> KClaimRefused t r.
+Proof.
+  intros Hacc H1 H2 e t r Hin Hk. apply in_split in Hin as (pre & post & Htr).
+  destruct (refusal_anatomy tr pre e post t r Hacc Htr Hk) as [(a & ev & b & o & Hpre & Hev & Hb & _) (ev1 & svc & Hin1 & Hk1)].
+  subst pre. apply in_app_or in Hin1 as [Hin1|[<-|Hin1]].
+  - apply in_split in Hin1 as (p1 & p2 & ->).
+    eapply (H1 p1 ev1 p2 ev b e post r svc t o); try eassumption.
+    rewrite Htr. rewrite <- !app_assoc. cbn [app]. rewrite <- !app_assoc. reflexivity.
+  - rewrite Hev in Hk1. discriminate.
+  - apply in_split in Hin1 as (p2 & p3 & ->).
+    eapply (H2 a ev p2 ev1 p3 e post r svc t o); try eassumption.
+    rewrite Htr. rewrite <- !app_assoc. cbn [app]. rewrite <- !app_assoc. reflexivity.
 Qed.
